@@ -43,6 +43,11 @@ func genRect(class string, m, n, logk int, zeroRow bool, sm *vk.SplitMix) rectGe
 		g.sigma = logSpaced(k, scale, 1e16, sm)
 		g.kappa2 = g.sigma[0] / g.sigma[k-1]
 		g.ill = k > 1
+	case "allzero":
+		g.sigma = make([]float64, k)
+		g.kappa2 = math.Inf(1)
+		g.ill = true
+		g.rank = 0
 	case "rankdef":
 		g.sigma = logSpaced(k, scale, kappa, sm)
 		if k >= 2 {
